@@ -354,12 +354,14 @@ func ParseSliceHeader(nalu []byte, spsMap map[uint32]*SPS, ppsMap map[uint32]*PP
 	if pps.NumSliceGroupsMinus1 > 0 &&
 		pps.SliceGroupMapType >= 3 &&
 		pps.SliceGroupMapType <= 5 {
-		picSizeInMapUnits := pps.PicSizeInMapUnitsMinus1 + 1
+		// PicSizeInMapUnits = PicWidthInMbs * PicHeightInMapUnits (7-17) comes from the SPS
+		picSizeInMapUnits := (sps.picWidthInMbsMinus1 + 1) * (sps.picHeightInMapUnitsMinus1 + 1)
 		sliceGroupChangeRate := pps.SliceGroupChangeRateMinus1 + 1
 		if sliceGroupChangeRate == 0 {
 			return nil, fmt.Errorf("slice_group_change_rate_minus1 %d too big", pps.SliceGroupChangeRateMinus1)
 		}
-		nrBits := int(math.Ceil(math.Log2(float64(picSizeInMapUnits/sliceGroupChangeRate + 1))))
+		// Ceil(Log2(PicSizeInMapUnits ÷ SliceGroupChangeRate + 1)) with exact division (7.4.3)
+		nrBits := int(math.Ceil(math.Log2(float64(picSizeInMapUnits)/float64(sliceGroupChangeRate) + 1)))
 		sh.SliceGroupChangeCycle = uint32(r.Read(nrBits))
 	}
 
